@@ -4,13 +4,14 @@
 (* (harness/c10, generator "lin") against Linearize.                       *)
 (*                                                                         *)
 (*   Reset t set none rej ek plain max   fresh instance, its conventions,  *)
-(*                                       the bound in force (0 = none)     *)
+(*         [cap]                         the bound in force (0 = none);    *)
+(*                                       double queue: the bound per lane  *)
 (*   Inv  p o k v + result fields        goroutine p starts call o; the    *)
 (*                                       record also carries what the call *)
 (*                                       eventually answered               *)
 (*   Ret  p o                            the call returned                 *)
 (*   Final keys vals | bagk bagv | n     the content after all goroutines  *)
-(*                                       were joined                       *)
+(*         | lane1 lane2                 were joined                       *)
 (*   Panic / Timeout                     NO action: a call that panicked,  *)
 (*                                       goroutines that never came back   *)
 (*                                                                         *)
@@ -25,7 +26,7 @@ EXTENDS Linearize, TraceLib
 VARIABLE l
 tvars == <<lvars, l>>
 
-TraceInit == /\ InitWith([set |-> FALSE, none |-> <<>>, none0 |-> <<>>, rej |-> FALSE, ek |-> 0, plain |-> FALSE])
+TraceInit == /\ InitWith([set |-> FALSE, none |-> <<>>, none0 |-> <<>>, rej |-> FALSE, ek |-> 0, plain |-> FALSE, cap |-> <<0, 0>>])
              /\ pend = [p \in Proc |-> IdleRec]
              /\ l = 1 /\ HwmInit
 
@@ -35,7 +36,9 @@ At(n) == IsEv(l, n) /\ l' = l + 1
 TraceReset == /\ At("Reset")
               /\ Has(e, "set") /\ Has(e, "none") /\ Has(e, "rej") /\ Has(e, "ek") /\ Has(e, "plain") /\ Has(e, "max")
               /\ ord' = <<>> /\ val' = EmptyFn /\ max' = e.max
-              /\ cfg' = [set |-> e.set, none |-> e.none, none0 |-> e.none, rej |-> e.rej, ek |-> e.ek, plain |-> e.plain]
+              /\ Has(e, "cap") => (Len(e.cap) = 2 /\ e.cap[1] \in Nat /\ e.cap[2] \in Nat)
+              /\ cfg' = [set |-> e.set, none |-> e.none, none0 |-> e.none, rej |-> e.rej, ek |-> e.ek, plain |-> e.plain,
+                         cap |-> IF Has(e, "cap") THEN e.cap ELSE <<0, 0>>]
               /\ pend' = [p \in Proc |-> IdleRec]
 
 TraceInv == At("Inv") /\ WellFormed(e) /\ Invoke(e.p, e)
@@ -48,6 +51,7 @@ TraceFinal == /\ At("Final") /\ AllIdle /\ UNCHANGED lvars
               /\ Has(e, "bagk") => /\ Has(e, "bagv") /\ Len(e.bagk) = Len(ord) /\ Len(e.bagv) = Len(ord)
                                    /\ Pairs(e.bagk, e.bagv) = {<<k, val[k]>> : k \in DOMAIN val}
               /\ Has(e, "n") => e.n = Len(ord)
+              /\ Has(e, "lane1") => (Has(e, "lane2") /\ e.lane1 = Lane(1) /\ e.lane2 = Lane(2))
 
 TraceNext == (TraceReset \/ TraceInv \/ TraceLin \/ TraceRet \/ TraceFinal) /\ InvAll'
 
